@@ -299,7 +299,8 @@ func (msg *message) search(seqNum uint32, criteria *imap.SearchCriteria) bool {
 
 	if !criteria.SentSince.IsZero() || !criteria.SentBefore.IsZero() {
 		t, err := header.Date()
-		if err != nil {
+		if err != nil || t.IsZero() {
+			// No Date header field, or an invalid one
 			return false
 		} else if !matchDate(t, criteria.SentSince, criteria.SentBefore) {
 			return false
